@@ -42,6 +42,23 @@ pub struct Case {
     /// stopped after the step and the store it hands back is observed directly
     #[serde(default)]
     pub via_actor: bool,
+    /// engine-level sub-case: a real `Docs` engine (endpoint, gossip, blob store) with a GC protection handler; after every
+    /// step the blob store's garbage collector asks which hashes to protect
+    #[serde(default)]
+    pub gc: Option<Vec<GcStep>>,
+}
+
+#[derive(Serialize, Deserialize, Clone, Debug)]
+pub enum GcStep {
+    Create,
+    /// (document, key selector, content selector)
+    Set(u8, u8, u8),
+    /// prefix deletion (document, key selector)
+    Del(u8, u8),
+    /// close and drop the document
+    DropDoc(u8),
+    /// the docs protocol is shut down (what `Router::shutdown` does); the blob store and its GC live on
+    Shutdown,
 }
 
 /// Synthetic namespace ids that are neighbours in byte order.
@@ -99,13 +116,38 @@ impl Prop for C16 {
             3 => prop::sample::select(vec![vec![2u8, 0, 1], vec![0, 1], vec![3, 4], vec![6, 5], vec![5, 7, 6], vec![3, 0], vec![3, 4, 5, 0]]),
             1 => vec(0u8..8, 2..=4),
         ];
-        (prop::bool::weighted(0.25), prop::bool::weighted(0.4), docs, pools(5), vec(step, 1..=max), prop::bool::weighted(0.3))
-            .prop_map(|(file, raw, docs, pools, steps, via_actor)| Case { file, raw, docs, pools, steps, via_actor: via_actor && !raw })
+        let gcstep = prop_oneof![
+            2 => Just(GcStep::Create),
+            6 => (0u8..3, 0u8..5, 0u8..4).prop_map(|(d, k, c)| GcStep::Set(d, k, c)),
+            2 => (0u8..3, 0u8..5).prop_map(|(d, k)| GcStep::Del(d, k)),
+            1 => (0u8..3).prop_map(GcStep::DropDoc),
+            1 => Just(GcStep::Shutdown),
+        ];
+        let gc = prop::option::weighted(0.02, vec(gcstep, 2..=10));
+        (prop::bool::weighted(0.25), prop::bool::weighted(0.4), docs, pools(5), vec(step, 1..=max), prop::bool::weighted(0.3), gc)
+            .prop_map(|(file, raw, docs, pools, steps, via_actor, gc)| {
+                if gc.is_some() {
+                    return Case { file: false, raw: false, docs: vec![0, 1], pools, steps: vec![], via_actor: false, gc };
+                }
+                Case { file, raw, docs, pools, steps, via_actor: via_actor && !raw, gc: None }
+            })
             .boxed()
     }
 
     fn check(ctx: &mut Ctx, c: &Case) -> Outcome {
         let mut o = Outcome::default();
+        if let Some(steps) = &c.gc {
+            let r = gc_protection(ctx, steps, &mut o);
+            verif::set_clock(None);
+            if let Err(e) = r {
+                if e.starts_with("harness-timeout") {
+                    o.fail("C16/harness-timeout", e);
+                } else {
+                    o.fail("C16/harness-error", e);
+                }
+            }
+            return o;
+        }
         o.class(if c.raw { "raw-rows" } else { "validated" });
         if c.via_actor && !c.raw {
             o.class("via-actor");
@@ -428,4 +470,150 @@ async fn actor_step(
         Step::Reopen => {}
     }
     Ok(())
+}
+
+// ------------------------------------------------------------------------------------------------
+// engine level: what the blob store's garbage collector is told to protect
+
+struct GcFixture {
+    endpoint: iroh::Endpoint,
+    gossip: iroh_gossip::net::Gossip,
+    blobs: iroh_blobs::api::Store,
+}
+
+fn gc_key(k: u8) -> Vec<u8> {
+    match k % 5 {
+        0 => b"a".to_vec(),
+        1 => b"a/1".to_vec(),
+        2 => b"a/2".to_vec(),
+        3 => b"b".to_vec(),
+        _ => vec![b'a', 0xFF],
+    }
+}
+
+/// After every step the garbage collector asks. `Abort` ("skip this run") is always acceptable; `Continue` means "this set is
+/// complete, sweep everything else", so the set must be exactly the hashes of the entries the documents hold.
+fn gc_protection(ctx: &mut Ctx, steps: &[GcStep], o: &mut Outcome) -> R<()> {
+    use std::collections::{BTreeMap, HashSet};
+    use iroh_blobs::{store::ProtectOutcome, Hash};
+    use iroh_docs::{engine::ProtectCallbackHandler, protocol::Docs};
+    o.class("gc-protection(engine)");
+    if !ctx.fixtures.contains_key("c16gc") {
+        let f: R<GcFixture> = ctx.rt.block_on(async {
+            use iroh::{endpoint::presets, Endpoint};
+            let endpoint = es(Endpoint::builder(presets::Minimal).bind().await)?;
+            let gossip = iroh_gossip::net::Gossip::builder().spawn(endpoint.clone());
+            let blobs = iroh_blobs::store::mem::MemStore::new();
+            Ok(GcFixture { endpoint, gossip, blobs: (*blobs).clone() })
+        });
+        ctx.fixtures.insert("c16gc", Box::new(f?));
+    }
+    let fx = ctx.fixtures.get("c16gc").and_then(|f| f.downcast_ref::<GcFixture>()).ok_or("fixture")?;
+    let (endpoint, gossip, blobs) = (fx.endpoint.clone(), fx.gossip.clone(), fx.blobs.clone());
+    let mut t = T0 + 1000;
+    ctx.rt.block_on(async {
+        let (handler, protect_cb) = ProtectCallbackHandler::new();
+        let docs = es(Docs::memory().protect_handler(handler).spawn(endpoint, blobs, gossip).await)?;
+        let author = es(docs.author_create().await)?;
+        // model: per document (None = dropped) key -> hash; prefix semantics of one author with increasing timestamps
+        let mut handles = vec![];
+        let mut model: Vec<Option<BTreeMap<Vec<u8>, Hash>>> = vec![];
+        let mut alive = true;
+        let mut asked = 0u64;
+        for (i, s) in steps.iter().enumerate() {
+            t += 1;
+            verif::set_clock(Some(t));
+            if alive {
+                match s {
+                    GcStep::Create => {
+                        if handles.len() < 3 {
+                            handles.push(es(docs.create().await)?);
+                            model.push(Some(BTreeMap::new()));
+                        }
+                    }
+                    GcStep::Set(d, k, c) => {
+                        if !handles.is_empty() {
+                            let d = *d as usize % handles.len();
+                            if let Some(m) = model[d].as_mut() {
+                                let key = gc_key(*k);
+                                let value = format!("content-{}-{}", c % 4, d);
+                                let h = es(handles[d].set_bytes(author, key.clone(), value).await)?;
+                                m.retain(|kk, _| !kk.starts_with(&key));
+                                m.insert(key, h);
+                            }
+                        }
+                    }
+                    GcStep::Del(d, k) => {
+                        if !handles.is_empty() {
+                            let d = *d as usize % handles.len();
+                            if let Some(m) = model[d].as_mut() {
+                                let key = gc_key(*k);
+                                es(handles[d].del(author, key.clone()).await)?;
+                                m.retain(|kk, _| !kk.starts_with(&key));
+                                m.insert(key, Hash::EMPTY);
+                            }
+                        }
+                    }
+                    GcStep::DropDoc(d) => {
+                        if !handles.is_empty() {
+                            let d = *d as usize % handles.len();
+                            if model[d].is_some() {
+                                es(handles[d].close().await)?;
+                                es(docs.drop_doc(handles[d].id()).await)?;
+                                model[d] = None;
+                                o.class("gc-protection/document-dropped");
+                            }
+                        }
+                    }
+                    GcStep::Shutdown => {
+                        iroh::protocol::ProtocolHandler::shutdown(&docs).await;
+                        alive = false;
+                        o.class("gc-protection/asked-after-the-docs-shutdown");
+                    }
+                }
+            }
+            // the garbage collector asks (twice after a shutdown: the first answer may differ from the later ones)
+            let held: HashSet<Hash> = model.iter().flatten().flat_map(|m| m.values().copied()).collect();
+            for round in 0..if alive { 1 } else { 2 } {
+                let mut live = HashSet::new();
+                let outcome = match tokio::time::timeout(std::time::Duration::from_secs(20), protect_cb(&mut live)).await {
+                    Ok(x) => x,
+                    Err(_) => return Err("harness-timeout: the protect callback did not answer within 20 s".into()),
+                };
+                asked += 1;
+                match outcome {
+                    ProtectOutcome::Abort => {
+                        if alive {
+                            o.class("gc-protection/abort-while-alive");
+                        }
+                    }
+                    _ => {
+                        if live != held {
+                            o.fail(
+                                "C16/gc-told-to-continue-with-a-wrong-protected-set",
+                                format!(
+                                    "step {i} {:?} (round {round}, docs {}): the garbage collector was told to go ahead with {} protected hashes, the documents hold {} ({} missing, {} extra)",
+                                    s,
+                                    if alive { "alive" } else { "shut down" },
+                                    live.len(),
+                                    held.len(),
+                                    held.difference(&live).count(),
+                                    live.difference(&held).count()
+                                ),
+                            );
+                            return Ok(());
+                        }
+                    }
+                }
+            }
+        }
+        o.count("gc_protection_requests", asked);
+        if model.iter().flatten().filter(|m| !m.is_empty()).count() >= 2 {
+            o.nontrivial = true;
+        }
+        if alive {
+            iroh::protocol::ProtocolHandler::shutdown(&docs).await;
+        }
+        Ok(())
+    })
 }
